@@ -203,6 +203,13 @@ func c11Build(r *core.Rng, fresh ...int) *c11Target {
 			n.Kids = append(n.Kids, &TNode{T: "leaf", Leaf: &LeafDesc{Tag: "fresh-type"}})
 		}
 	})
+	if r.Chance(1, 3) && t.tree.Cap == 0 {
+		// nested stacks that render as nothing (the paths a renderer takes when there is nothing to render)
+		t.tree.Kids = append(t.tree.Kids, &TNode{T: "stack", Kind: []string{"AND", "OR", "LIST", "BASIC"}[r.Intn(4)]})
+		if r.Bool() {
+			t.tree.Kids = append(t.tree.Kids, &TNode{T: "stack", Kind: "NOT", Kids: []*TNode{{T: "stack", Kind: "AND"}}})
+		}
+	}
 	// Conditions that were assembled incompletely by the constructor (which records a complaint) and completed afterwards
 	t.tree.Walk(func(n *TNode) {
 		if n.T == "cond" && r.Chance(1, 4) {
